@@ -867,3 +867,38 @@ package genetics
 //@     invariant [onlyThese] forall x *Gene :: wasAllocated(x) && (forall i :: 0 <= i && i < len(g.Genes) ==> g.Genes[i] != x) ==> x.IsEnabled == old(x.IsEnabled)
 //@     leave [stillLeaves] forall i :: 0 <= i && i < len(g.Genes) && old(g.Genes[i].IsEnabled) ==> (exists j :: 0 <= j && j < len(g.Genes) && g.Genes[j].IsEnabled && g.Genes[j].Link.InNode.Id == g.Genes[i].Link.InNode.Id)
 //@     leave [onlyThese] forall x *Gene :: wasAllocated(x) && (forall i :: 0 <= i && i < len(g.Genes) ==> g.Genes[i] != x) ==> x.IsEnabled == old(x.IsEnabled)
+
+// ---- C09 / C02: rounding fix-up and removal of species without offspring ------------------------------------
+// What is proved: whenever the function's own tally of the quotas falls short of the number of organisms, the quotas afterwards total at
+// least that number (the single make-up offspring, or the whole population to the best species when even that falls short), and no species
+// with a zero quota stays in the list. That the floor-with-carry total never exceeds the number of organisms (so that nothing needs
+// fixing in the other case) is real arithmetic over the partition of the organisms into species and is not proved here.
+//@ func (*Population).purgeZeroOffspringSpecies
+//@   props C09 C02
+//@   uses sumFI_update memberAt sumFI_zero
+//@   mode nosafety
+//@   ufarith
+//@   assume_pre countOffspring
+//@   requires p != nil && len(p.Organisms) > 0 && len(p.Species) > 0 && distinctRefs(p.Species) && (forall i :: 0 <= i && i < len(p.Species) ==> p.Species[i] != nil)
+//@   ensures_local [madeUp] totalExpected < totalOrganisms ==> sumField(old(p.Species), heapOf(Species.ExpectedOffspring)) >= totalOrganisms
+//@   ensures [noZero] forall i :: 0 <= i && i < len(p.Species) ==> p.Species[i] != nil && p.Species[i].ExpectedOffspring > 0
+//@   loop 1:
+//@     invariant -1 <= #idx
+//@   loop 2:
+//@     invariant -1 <= #idx
+//@   loop 3:
+//@     invariant -1 <= #idx && #idx < len(p.Species) && sameSlice(p.Species, old(p.Species)) && unchanged(p.Species) && totalOrganisms == len(p.Organisms) && 0.0 <= skim && skim < 1.0
+//@     invariant [nonneg] forall i :: 0 <= i && i <= #idx ==> p.Species[i].ExpectedOffspring >= 0
+//@   loop 4:
+//@     invariant -1 <= #idx && #idx < len(p.Species) && sameSlice(p.Species, old(p.Species)) && unchanged(p.Species) && totalOrganisms == len(p.Organisms) && maxExpected >= 0
+//@     invariant [sum] finalExpected == sumField(p.Species[0:#idx+1], heapOf(Species.ExpectedOffspring))
+//@     invariant [nonneg] forall i :: 0 <= i && i < len(p.Species) ==> p.Species[i].ExpectedOffspring >= 0
+//@     invariant [bestNonNil] (#idx >= 0 ==> bestSpecies != nil) && (bestSpecies == nil ==> maxExpected == 0)
+//@     invariant [bestMember] bestSpecies != nil ==> (exists j :: 0 <= j && j <= #idx && bestSpecies == p.Species[j])
+//@   loop 5:
+//@     invariant -1 <= #idx && #idx < len(p.Species) && sameSlice(p.Species, old(p.Species)) && unchanged(p.Species) && totalOrganisms == len(p.Organisms) && bestSpecies != nil && (exists j :: 0 <= j && j < len(p.Species) && bestSpecies == p.Species[j])
+//@     invariant [zeroed] forall i :: 0 <= i && i <= #idx ==> p.Species[i].ExpectedOffspring == 0
+//@   loop 6:
+//@     invariant -1 <= #idx && sameSlice(p.Species, old(p.Species)) && unchanged(p.Species) && fresh(speciesToKeep)
+//@     invariant [total] totalOrganisms == len(p.Organisms) && (totalExpected < totalOrganisms ==> sumField(p.Species, heapOf(Species.ExpectedOffspring)) >= totalOrganisms)
+//@     invariant [kept] forall i :: 0 <= i && i < len(speciesToKeep) ==> speciesToKeep[i] != nil && speciesToKeep[i].ExpectedOffspring > 0
